@@ -160,13 +160,21 @@ func (w *World) Project() map[string]interface{} {
 	out["user"] = user
 	out["ro"] = rom
 	out["plan"] = projectPlan(steps)
-	out["wl"] = w.WL.Project(w)
-	out["br"] = w.projectBR(ro)
+	wlm := w.WL.Project(w)
+	brm := w.projectBR(ro)
+	// labelled: live pods carrying the rollout-id the BatchRelease labels with (its spec.releasePlan.rolloutID)
+	if brm["exists"] == true && wlm["exists"] == true {
+		if lf, ok := w.WL.(interface{ LabelledFor(*World, string) int }); ok {
+			wlm["labelled"] = lf.LabelledFor(w, brm["rid"].(string))
+		}
+	}
+	out["wl"] = wlm
+	out["br"] = brm
 	out["net"] = w.projectNet()
 	out["mem"] = w.projectMem()
 	origOk, _ := w.UserOwnedEqual()
 	rs := append([]int{}, w.Ghost.ReadySteps...)
-	out["ghost"] = map[string]interface{}{"readySteps": rs, "created": w.Ghost.Created, "origOk": origOk, "brEver": w.Ghost.BrEver, "jumpBack": w.Ghost.JumpBack}
+	out["ghost"] = map[string]interface{}{"readySteps": rs, "created": w.Ghost.Created, "origOk": origOk, "brEver": w.Ghost.BrEver, "jumpBack": w.Ghost.JumpBack, "lateChange": w.Ghost.LateChange}
 	out["quiet"] = w.WL.Quiescent(w) && !w.gcPending()
 	return out
 }
